@@ -493,12 +493,13 @@ Section Ops.
     split.
     { intros H. rewrite ET. apply o4_T2g_set_status; [|exact H]. cbn [r_str]. discriminate. }
     split; [apply o4_c_prune_one|]. split.
-    { destruct CS as [[_ [_ C]]|[[_ [_ [C _]]]|[[_ [_ [C _]]]|[[_ [_ [C _]]]|[_ [_ [C _]]]]]]].
+    { destruct CS as [[_ [_ C]]|[[_ [_ [C _]]]|[[_ [_ [C _]]]|[[_ [_ [C _]]]|[[_ [_ [C _]]]|[_ [_ [C _]]]]]]]].
       - apply o4_Cl_eq. exact C.
       - apply o4_Cl_eq. exact C.
       - exact (o4_Cl_frame aids _ _ _ C N).
       - apply o4_Cl_eq. exact C.
-      - exact (o4_Cl_frame aids _ _ _ C N). }
+      - exact (o4_Cl_frame aids _ _ _ C N).
+      - apply o4_Cl_eq. exact C. }
     exists (IEv (EPrune g (c_id c) (ast_of a)) :: lt). split; [exact ETR|].
     split; constructor; try exact I; assumption.
   Qed.
